@@ -315,5 +315,11 @@ def rfwd_forwarding(chk: Check) -> None:
     shared.forwarding_rule(chk, "C01.FWD", ('specs/openapi/_hypothesis.py:', 'specs/openapi/negative/', 'specs/openapi/converter.py:', 'specs/openapi/schemas.py:BaseOpenAPISchema.get_case_strategy', 'schemas.py:BaseSchema.as_strategy', 'schemas.py:APIOperationMap.as_strategy'), "generation settings / strategy options", 5)
 
 
+def r8_forbid_each(chk: Check) -> None:
+    from . import shared
+
+    shared.forbid_each_property_rule(chk, "C01.R8", "readOnly properties in request schemas")
+
+
 def rules(tier: str) -> list:  # type: ignore[type-arg]
-    return [r1_generator_plumbing, r2_length_keywords, r3_property_stripping, r4_path_location, r5_filters_only_narrow, r6_token_kinds_agree, r7_traversal_order, rfwd_forwarding]
+    return [r1_generator_plumbing, r2_length_keywords, r3_property_stripping, r4_path_location, r5_filters_only_narrow, r6_token_kinds_agree, r7_traversal_order, rfwd_forwarding, r8_forbid_each]
